@@ -109,7 +109,11 @@ func (in *inliner) eligible(call *ast.CallExpr, stack []*types.Func, depth int) 
 	ast.Inspect(callee.Decl.Body, func(n ast.Node) bool {
 		nodes++
 		switch x := n.(type) {
-		case *ast.DeferStmt, *ast.GoStmt, *ast.SelectStmt, *ast.LabeledStmt:
+		case *ast.DeferStmt:
+			if !leadingDefers(callee.Decl.Body)[x] {
+				ok = false
+			}
+		case *ast.GoStmt, *ast.SelectStmt, *ast.LabeledStmt:
 			ok = false
 		case *ast.BranchStmt:
 			if x.Tok == token.GOTO || x.Label != nil {
@@ -141,6 +145,39 @@ func (in *inliner) eligible(call *ast.CallExpr, stack []*types.Func, depth int) 
 	}
 	return callee
 }
+
+// leadingDefers returns the defer statements of a body that can be replayed
+// as plain calls at its end: top-level statements that defer a plain call
+// (not a function literal) and that come before the first statement
+// containing a return, so that they are registered on every path.
+func leadingDefers(body *ast.BlockStmt) map[*ast.DeferStmt]bool {
+	out := map[*ast.DeferStmt]bool{}
+	for _, st := range body.List {
+		if d, ok := st.(*ast.DeferStmt); ok {
+			if _, isLit := d.Call.Fun.(*ast.FuncLit); !isLit {
+				out[d] = true
+				continue
+			}
+			return out
+		}
+		hasRet := false
+		ast.Inspect(st, func(n ast.Node) bool {
+			switch n.(type) {
+			case *ast.FuncLit:
+				return false
+			case *ast.ReturnStmt:
+				hasRet = true
+			}
+			return !hasRet
+		})
+		if hasRet {
+			break
+		}
+	}
+	return out
+}
+
+func hasDefers(body *ast.BlockStmt) bool { return len(leadingDefers(body)) > 0 }
 
 // block returns a copy of b with eligible call statements inlined.
 func (in *inliner) block(b *ast.BlockStmt, stack []*types.Func, depth int) *ast.BlockStmt {
@@ -275,6 +312,31 @@ func (in *inliner) stmt(s ast.Stmt, stack []*types.Func, depth int) []ast.Stmt {
 	}
 	if call := topCall(s); call != nil {
 		if callee := in.eligible(call, stack, depth); callee != nil {
+			if rs, isRet := s.(*ast.ReturnStmt); isRet && hasDefers(callee.Decl.Body) {
+				// the deferred calls run between the evaluation of the
+				// results and the caller's return: take the results into
+				// temporaries first
+				sig := callee.Obj.Type().(*types.Signature)
+				var lhs, uses []ast.Expr
+				for i := 0; i < sig.Results().Len(); i++ {
+					in.label++
+					name := fmt.Sprintf("inl%d_res", in.label)
+					obj := types.NewVar(call.Pos(), in.root.Obj.Pkg(), name, sig.Results().At(i).Type())
+					def := &ast.Ident{NamePos: call.Pos(), Name: name}
+					in.info.Defs[def] = obj
+					use := &ast.Ident{NamePos: call.Pos(), Name: name}
+					in.info.Uses[use] = obj
+					in.info.Types[use] = types.TypeAndValue{Type: obj.Type()}
+					lhs = append(lhs, def)
+					uses = append(uses, use)
+				}
+				if len(lhs) == 0 {
+					return []ast.Stmt{s}
+				}
+				as := &ast.AssignStmt{Lhs: lhs, TokPos: call.Pos(), Tok: token.DEFINE, Rhs: []ast.Expr{call}}
+				out := in.expand(as, call, callee, stack, depth)
+				return append(out, &ast.ReturnStmt{Return: rs.Return, Results: uses})
+			}
 			return in.expand(s, call, callee, stack, depth)
 		}
 		return []ast.Stmt{s}
@@ -481,6 +543,22 @@ func (in *inliner) expand(s ast.Stmt, call *ast.CallExpr, callee *Func, stack []
 
 	cl := &cloner{info: info, subst: subst}
 	body := cl.node(callee.Decl.Body).(*ast.BlockStmt)
+	// leading defers of plain calls are replayed behind the body, in reverse order
+	var deferred []ast.Stmt
+	if ld := leadingDefers(callee.Decl.Body); len(ld) > 0 {
+		var kept []ast.Stmt
+		for i, st := range body.List {
+			if i < len(callee.Decl.Body.List) {
+				if d, ok := callee.Decl.Body.List[i].(*ast.DeferStmt); ok && ld[d] {
+					dc := st.(*ast.DeferStmt)
+					deferred = append([]ast.Stmt{&ast.ExprStmt{X: dc.Call}}, deferred...)
+					continue
+				}
+			}
+			kept = append(kept, st)
+		}
+		body.List = kept
+	}
 	// declarations of named results, so that their zero values are visible
 	for _, id := range named {
 		if id.Name == "_" {
@@ -612,6 +690,7 @@ func (in *inliner) expand(s ast.Stmt, call *ast.CallExpr, callee *Func, stack []
 		lb := &ast.Ident{NamePos: call.End(), Name: label}
 		out = append(out, &ast.LabeledStmt{Label: lb, Colon: call.End(), Stmt: &ast.EmptyStmt{Semicolon: call.End(), Implicit: true}})
 	}
+	out = append(out, deferred...)
 	return out
 }
 
